@@ -326,6 +326,29 @@ func partB(r *rand.Rand, iterations int, stats map[string]int) (fail string, tra
 			add(e)
 			stable[e] = true
 		}
+		// where the table came from must not matter: a collection produced by a STORE form or by COPY
+		// (same members, a table built by another code path) is iterated like one built element by element
+		switch c.kind {
+		case "set":
+			switch r.Intn(6) {
+			case 0:
+				run("SUNIONSTORE", c.key, c.key)
+			case 1:
+				run("SINTERSTORE", c.key, c.key)
+			case 2:
+				run("SDIFFSTORE", c.key, c.key, "no-such-key")
+			case 3:
+				run("COPY", c.key, "tmp-copy")
+				run("RENAME", "tmp-copy", c.key)
+			}
+			stats["derived_tables"]++
+		case "hash":
+			if r.Intn(3) == 0 {
+				run("COPY", c.key, "tmp-copy")
+				run("RENAME", "tmp-copy", c.key)
+				stats["derived_tables"]++
+			}
+		}
 		everPresent := map[string]bool{}
 		for e := range c.present {
 			everPresent[e] = true
